@@ -13,3 +13,53 @@ SPECS = [
     Spec(GROUP, "lookup", "toy.py", "lookup", [("i", INT)]),
 ]
 BRIDGE = {"module": "", "theorems": [], "properties": []}
+from translate_fn import BOOL
+SPECS += [
+    Spec(GROUP, "frame_check", "toy.py", "Chip.frame_check", [("frame", BYTES)]),
+    Spec(GROUP, "counters", "toy.py", "Chip.counters", [("acks", INT), ("flag", BOOL)],
+         binds=[("self.acks_recvd", "acks_recvd", INT)], stores=["self.acks_recvd"], stmts=(0, 1),
+         result=["self.acks_recvd"]),
+    Spec(GROUP, "deep", "toy.py", "Chip.deep", [("x", INT), ("i", INT)], path=[(0, "body"), (0, "body")],
+         stmts=(0, 3), result=["z"]),
+]
+
+
+def inputs(rng, sp):
+    out = []
+    if sp.lean == "frame_check":
+        for _ in range(150):
+            body = bytes(rng.choice([0, 1, 255, rng.randrange(256)]) for _ in range(rng.randrange(0, 9)))
+            if rng.random() < 0.5 and body:
+                body = body[:-1] + bytes([(-sum(body[:-1])) & 255])
+            out.append(([bytes.fromhex("0000FF") + body], []))
+        out.append(([bytes.fromhex("0000FF00FF00")], []))
+    return out
+from translate_fn import OPT, TUP
+SPECS += [
+    Spec(GROUP, "data_pop", "toy.py", "data_pop", [("n", INT)]),
+    Spec(GROUP, "opt_miu_set", "toy.py", "Opt.miu@setter", [("value", INT)], stores=["self._miux"], stmts=(0, 1),
+         result=["self._miux"]),
+    Spec(GROUP, "opt_miu_get", "toy.py", "Opt.miu", [], binds=[("self._miux", "miux", OPT(INT))]),
+    Spec(GROUP, "opt_maybe", "toy.py", "Opt.maybe", [("data", BYTES)], ret=OPT(INT)),
+    Spec(GROUP, "opt_fits", "toy.py", "Opt.fits", [("size", INT), ("limit", OPT(INT))]),
+    Spec(GROUP, "opt_popper", "toy.py", "Opt.popper", [("data", BYTES), ("flag", BOOL)]),
+    Spec(GROUP, "opt_logidx", "toy.py", "Opt.logidx", [("rsp", BYTES)], stmts=(0, 7),
+         binds=[("self.cfg['send-miu']", "send_miu", INT), ("len(self.queue)", "qlen", INT)],
+         drop=["self.notify_all", "strerr ="], excs={"ProtocolError": "protocol", "Chip.Error": "io"},
+         reraise={"error": "Exc.index"}),
+    Spec(GROUP, "opt_expr", "toy.py", "Opt.fits", [("size", INT)], expr="size - 2", nth=0),
+]
+SPECS += [
+    Spec(GROUP, "lastvar", "toy.py", "lastvar", [("rw_bits", INT), ("k", INT)], nonneg=["rw_bits"]),
+]
+SMALL_INT = ("lastvar",)
+SPECS += [Spec(GROUP, "orval", "toy.py", "orval", [("opt", OPT(INT)), ("value", INT), ("data", BYTES)])]
+SPECS += [
+    Spec(GROUP, "code_of", "toy.py", "Base.code_of", [("data", BYTES)], via="Sub", ret=OPT(BYTES)),
+    Spec(GROUP, "enumer", "toy.py", "Base.enumer", [("data", BYTES), ("br", INT)]),
+    Spec(GROUP, "tl", "toy.py", "Base.tl", [("data", BYTES)], ret=TUP(INT, INT, OPT(BYTES))),
+]
+SPECS += [
+    Spec(GROUP, "typed_int", "toy.py", "typed", [("cause", OPT(INT))]),
+    Spec(GROUP, "typed_bytes", "toy.py", "typed", [("cause", BYTES)]),
+]
